@@ -19,6 +19,7 @@ import (
 func init() {
 	vfRegister("VfC14_fault", VfC14_fault)
 	vfRegister("VfC14_faultSched", VfC14_faultSched)
+	vfRegister("VfC14_twoFaults", VfC14_twoFaults)
 }
 
 // vfCStream is a scripted Modify client stream played by a tiny conformant
@@ -150,8 +151,8 @@ func vfClosed(ch chan struct{}) bool {
 	}
 }
 
-func vfC14(sched int) {
-	faulty, good := vfNewCStream(), vfNewCStream()
+func vfFaultyStream() (*vfCStream, bool) {
+	faulty := vfNewCStream()
 	statuses := []error{status.Error(codes.Unavailable, "transport is closing"), status.Error(codes.Internal, "stream terminated"), status.Error(codes.Canceled, "context canceled")}
 	faulty.err = statuses[vfInt("fault.status", 0, 2)]
 	gated := false
@@ -164,6 +165,12 @@ func vfC14(sched int) {
 	} else {
 		faulty.recvFailAfter = vfInt("fault.recv-index", 0, 3)
 	}
+	return faulty, gated
+}
+
+func vfC14(sched int) {
+	faulty, gated := vfFaultyStream()
+	good := vfNewCStream()
 	stub := &vfCStub{streams: []*vfCStream{faulty, good}}
 	c, err := New(ElectedPrimaryClient(&spb.Uint128{Low: 1}), PersistEntries())
 	if err != nil {
@@ -239,3 +246,65 @@ func vfC14(sched int) {
 
 func VfC14_fault()      { vfC14(0) }
 func VfC14_faultSched() { vfC14(1) }
+
+// VfC14_twoFaults: a fault, Reset + reconnect, a second fault on the new stream,
+// Reset + reconnect on a healthy stream.
+func VfC14_twoFaults() {
+	f1, g1 := vfFaultyStream()
+	f2, g2 := vfFaultyStream()
+	good := vfNewCStream()
+	stub := &vfCStub{streams: []*vfCStream{f1, f2, good}}
+	c, err := New(ElectedPrimaryClient(&spb.Uint128{Low: 1}), PersistEntries())
+	if err != nil {
+		panic(err)
+	}
+	c.UseStub(stub)
+	ctx := context.Background()
+	round := func(st *vfCStream, gated bool, base uint64) bool {
+		if err := c.Connect(ctx); err != nil {
+			panic(err)
+		}
+		qDone := make(chan struct{})
+		go func() {
+			c.StartSending()
+			for i := 0; i < 8; i++ {
+				c.Q(vfCOpN(base + uint64(i)))
+			}
+			close(qDone)
+		}()
+		if gated {
+			<-st.entered
+			vfSettleC()
+			close(st.gate)
+		}
+		vfSettleC()
+		vfAssert(vfClosed(qDone), "C14:calls-that-queue-requests-return")
+		if !vfClosed(qDone) {
+			return false
+		}
+		vfAssert(c.AwaitConverged(ctx) != nil, "C14:await-converged-returns-the-error")
+		c.Reset()
+		p, _ := c.Pending()
+		r, _ := c.Results()
+		se, re := c.hasErrors()
+		vfAssert(len(p) == 0 && len(r) == 0 && len(se)+len(re) == 0, "C14:reset-leaves-no-stale-state")
+		return true
+	}
+	if !round(f1, g1, 1) || !round(f2, g2, 20) {
+		return
+	}
+	if err := c.Connect(ctx); err != nil {
+		panic(err)
+	}
+	c.StartSending()
+	c.Q(vfCOpN(100))
+	vfAssert(c.AwaitConverged(ctx) == nil, "C14:exchange-after-reconnect-converges")
+	r, _ := c.Results()
+	for _, x := range r {
+		if x.OperationID != 0 {
+			vfAssert(x.OperationID == 100, "C14:no-stale-results-after-reconnect")
+		}
+	}
+	vfAssert(c.Close() == nil, "C14:final-close-returns")
+	vfReach("end")
+}
